@@ -1,5 +1,5 @@
 //! C14 — no shared mutable state; control flow merges variables correctly.
 use crate::common::Tier;
 pub fn run(tier: Tier) -> i32 {
-    crate::props::c01::run_shared("C14", tier, &["S", "T", "X"], vec![])
+    crate::props::c01::run_shared("C14", tier, &["S", "T", "X", "A"], vec![])
 }
